@@ -79,6 +79,36 @@ var Inl = []string{
 	"[\x00a\x00]: /u", "[\x00a\x00]", "\x00a\x00", "[a\x00\x00b\x00]", "`\x00 \x00`", "<a\x00b\x00>", "(/u\x00v\x00 \"t\x00\x00u\x00\")",
 }
 
+// Constructs are complete inline constructs; Lines uses them whole, split by a
+// line ending at an arbitrary position, or damaged by a one-character edit, so
+// that the neighbourhood of every construct (the strings that are *almost* a
+// tag, an autolink, a reference, a link) is reached, inside containers too.
+var Constructs = []string{
+	"<a href=\"x\" b='y' c=z d>", "</a >", "<br/>", "<b >", "<!-- c -->", "<!--c-->", "<!-- a-b -->", "<?php x ?>", "<!DOCTYPE html>", "<!x y>", "<![CDATA[x]]>", "<![CDATA[ a ]] b ]]>",
+	"<http://a.b/c?d>", "<me@x.yz>", "<ab:c>", "<a+b.c-d:e>", "<mailto:a@b.c>",
+	"&amp;", "&#123;", "&#x1F;", "&copy;", "&#1234567;", "&#xABCDEF;", "&AElig;", "&nbsp;",
+	"[t](/u \"ti\")", "[t](</u v> 'ti')", "[t](/u (ti))", "[t]()", "[t](<>)", "![i](/s \"t\")", "[t][r]", "[r][]", "[r]", "[t]( /u )", "[t](/u(v)w)", "[t](/u\\)x)",
+	"`code`", "``c`d``", "` `` `", "*em*", "**st**", "_e_", "__s__", "***x***", "*a **b** c*", "a  \nb", "a\\\nb",
+}
+
+var damage = []string{" ", "<", ">", "\"", "'", "-", "\\", "!", "/", "=", "`", "]", "(", "&", ";", "#", "\t", "x", ":", "@", "?"}
+
+func construct(t *rapid.T) string {
+	c := Constructs[rapid.IntRange(0, len(Constructs)-1).Draw(t, "construct")]
+	switch rapid.IntRange(0, 5).Draw(t, "damage") {
+	case 0, 1: // a line ending at an arbitrary interior position
+		p := rapid.IntRange(1, len(c)-1).Draw(t, "splitpos")
+		return c[:p] + "\n" + c[p:]
+	case 2: // one character deleted
+		p := rapid.IntRange(0, len(c)-1).Draw(t, "delpos")
+		return c[:p] + c[p+1:]
+	case 3: // one character inserted
+		p := rapid.IntRange(0, len(c)).Draw(t, "inspos")
+		return c[:p] + damage[rapid.IntRange(0, len(damage)-1).Draw(t, "ins")] + c[p:]
+	}
+	return c
+}
+
 // Starts are the G2 block openers.
 var Starts = []string{"", "", "", "# ", "## ", "> ", "- ", "1. ", "   ", "    ", "\t", "```\n", "~~~\n", "<div>\n", "[r]: /u\n", "[r]: /u 't'\n", "---\n", "===\n", "* ", "+ ", "10) ", " > ", "  - ", "[a\nb]: /x\n", "[r]:\n/u\n", "[r]: /u\n'ti\ntle'\n", "<!-- x\n", "<pre>\n", "<script>\n", "``` info\n", "    code\n"}
 
@@ -103,7 +133,11 @@ func Lines() *rapid.Generator[[]byte] {
 			}
 			k := rapid.IntRange(0, 5).Draw(t, "k")
 			for j := 0; j < k; j++ {
-				line += Inl[rapid.IntRange(0, len(Inl)-1).Draw(t, "inl")]
+				if rapid.IntRange(0, 4).Draw(t, "cons") == 0 {
+					line += construct(t)
+				} else {
+					line += Inl[rapid.IntRange(0, len(Inl)-1).Draw(t, "inl")]
+				}
 				if rapid.IntRange(0, 2).Draw(t, "sp") == 0 {
 					line += " "
 				}
